@@ -1141,7 +1141,12 @@ where
         let mut safe = self.safe.write().await;
         if let None = safe.active_blob {
             let blob_opt = safe.blobs.write().await.pop();
-            if let Some(blob) = blob_opt {
+            if let Some(mut blob) = blob_opt {
+                // Active blob accepts appends only with its index in memory
+                if let Err(e) = blob.load_index().await {
+                    safe.blobs.write().await.push(blob).await;
+                    return Err(e);
+                }
                 #[cfg(pearl_verif)]
                 crate::verif::event("active_restored", &[("blob", blob.id() as u64)], None);
                 safe.active_blob = Some(Box::new(ASRwLock::new(blob)));
